@@ -19,9 +19,10 @@
    handle operations, Go's writer preference) - is model-checked for every
    interleaving of 2-4 operations: the reachable content refines the abstract
    map at every moment no delete is in flight, no conflicting unsynchronised
-   access, no deadlock, termination under fairness; four mutants of the protocol
+   access, no deadlock, termination under fairness; five mutants of the protocol
    (no re-check after the exchange, read lock released before descending, visitor
-   re-locking its leaf, delete without node locks) must each be refuted.
+   re-locking its leaf, delete without node locks, terminalAdd checking the node
+   kind under the read lock only) must each be refuted.
 """
 import json
 import os
@@ -36,7 +37,8 @@ TIERS = {"quick": dict(n=1200, race_n=1500, shards=48, contend=40), "thorough": 
 
 LOCK_CFGS = {"quick": ["none", "core3"], "thorough": ["none", "thorough", "core4"]}
 # seeded design errors of the lock protocol and the property each must violate
-LOCK_MUTANTS = {"no_recheck": "Refines", "early_release": "Refines", "visitor_value": "deadlock", "delete_no_node_locks": "NoRace"}
+LOCK_MUTANTS = {"no_recheck": "Refines", "early_release": "Refines", "visitor_value": "deadlock", "delete_no_node_locks": "NoRace",
+                "terminal_check_unlocked": "Refines"}
 
 
 def is_boundary(e):
